@@ -17,7 +17,7 @@ def sh(cmd, cwd=None, timeout=3600):
 def main():
     pid, letter = sys.argv[1], sys.argv[2]
     extra = sys.argv[3:]
-    seed = f"/tmp/seed2_{pid}/SEED" if letter in ("C", "D") else f"/tmp/seed_{pid}/SEED"
+    seed = f"/tmp/seed3_{pid}/SEED" if letter in ("E", "F") else f"/tmp/seed2_{pid}/SEED" if letter in ("C", "D") else f"/tmp/seed_{pid}/SEED"
     patch = f"{seed}/{letter}.diff"
     demo = f"{seed}/{letter}_demo.rs"
     kept = f"/verif/seeded/{pid}-{letter}"
@@ -35,12 +35,12 @@ def main():
     try:
         tgt = f"CARGO_TARGET_DIR={wt}/target"
         shutil.copy(demo, f"{wt}/tests/seed_demo.rs")
-        rc0, out0 = sh(f"{tgt} cargo test --offline --features serde --test seed_demo", cwd=wt)
+        rc0, out0 = sh(f"{tgt} cargo test --offline --features serde,regex --test seed_demo", cwd=wt)
         meta["demo_without_change"] = "pass" if rc0 == 0 else "FAIL"
         rc, out = sh(f"git apply {patch}", cwd=wt)
         if rc != 0:
             print("patch does not apply:", out); return 1
-        rc1, out1 = sh(f"{tgt} cargo test --offline --features serde --test seed_demo", cwd=wt)
+        rc1, out1 = sh(f"{tgt} cargo test --offline --features serde,regex --test seed_demo", cwd=wt)
         meta["demo_with_change"] = "fail" if rc1 != 0 else "PASS"
         os.unlink(f"{wt}/tests/seed_demo.rs")
         rc2, out2 = sh(f"{tgt} cargo test --offline", cwd=wt)
@@ -78,7 +78,7 @@ def main():
         sh("rm -rf /verif/replays")
     meta["checks"] = checks
     meta["what_it_needs"] = notes_text if notes_text is not None else (open(f"{seed}/notes.md").read()[:6000] if os.path.exists(f"{seed}/notes.md") else "")
-    meta["ran"] = [f"cargo test --offline --features serde --test seed_demo (without / with the change)", "cargo test --offline (with the change)",
+    meta["ran"] = [f"cargo test --offline --features serde,regex --test seed_demo (without / with the change)", "cargo test --offline (with the change)",
                    f"git -C /repo apply patch.diff; ./check {pid} quick[/thorough]; git -C /repo checkout -- ."]
     dst = f"/verif/seeded/{pid}-{letter}"
     os.makedirs(dst, exist_ok=True)
